@@ -518,6 +518,7 @@ func (tc *taintCfg) sanitisedUses(fn *ssa.Function) map[ssa.Instruction]map[ssa.
 		return out
 	}
 	visited := map[ssa.Instruction]bool{}
+	var record func(s uint64, ins ssa.Instruction)
 	pr := &PathRule{
 		Edge: func(pc *PathCtx, s uint64, from *ssa.BasicBlock, si int) (uint64, bool) {
 			for _, f := range pc.edgeFacts(from, si) {
@@ -541,7 +542,19 @@ func (tc *taintCfg) sanitisedUses(fn *ssa.Function) map[ssa.Instruction]map[ssa.
 			}
 			return s, true
 		},
+		Exit: func(pc *PathCtx, s uint64, ins ssa.Instruction) {
+			// a Return uses its results: the engine reports it here, not through Step
+			if _, ok := ins.(*ssa.Return); ok {
+				record(s, ins)
+			}
+		},
 		Step: func(pc *PathCtx, s uint64, ins ssa.Instruction) uint64 {
+			record(s, ins)
+			return s
+		},
+	}
+	record = func(s uint64, ins ssa.Instruction) {
+		{
 			m := out[ins]
 			first := !visited[ins]
 			visited[ins] = true
@@ -565,8 +578,7 @@ func (tc *taintCfg) sanitisedUses(fn *ssa.Function) map[ssa.Instruction]map[ssa.
 					m[*op] = false
 				}
 			}
-			return s
-		},
+		}
 	}
 	tc.c.RunPaths(fn, 0, pr)
 	return out
